@@ -34,7 +34,7 @@ type c01Case struct {
 var c01AltKinds = []string{
 	"none", "neutral",
 	"content", "content", "content", "content", "payload-bytes", "inmemory",
-	"sig-drop", "sig-flip", "sig-swap", "sig-retarget", "sig-empty", "sig-junk-first", "sig-dup-for-missing", "inmemory", "stranger-relabelled-sig", "sig-undecodable", "sig-undecodable", "dsse-two-payload-members", "dsse-two-payload-members",
+	"sig-drop", "sig-flip", "sig-swap", "sig-retarget", "sig-empty", "sig-junk-first", "sig-dup-for-missing", "inmemory", "stranger-relabelled-sig", "sig-undecodable", "sig-undecodable", "dsse-two-payload-members", "dsse-two-payload-members", "altered-keyid-case", "altered-cert-member",
 	"keys-empty", "keys-add-nonsigner", "keys-stranger", "keys-pubswap", "keys-subset", "keys-unknown-type", "keys-unknown-type",
 }
 
@@ -365,6 +365,38 @@ func c01Eval(c c01Case, r *hx.Rec, enum *hx.TreeMutation) error {
 			return fmt.Errorf("harness: %v", werr)
 		}
 		forgedProbe = true
+	case "altered-keyid-case", "altered-cert-member":
+		// the content is no longer what was signed AND the outdated signature entries are dressed up: their key
+		// ids written in another letter case, or a certificate member (which no signature covers) attached
+		applied, err = editFile(b.LayoutPath, hx.JSONStyle{Indent: 1}, func(top map[string]any) bool {
+			s := sigField(top)
+			if len(s) == 0 {
+				return false
+			}
+			for _, e := range s {
+				m := e.(map[string]any)
+				if alt.Kind == "altered-keyid-case" {
+					id, _ := m["keyid"].(string)
+					if alt.A%2 == 0 {
+						m["keyid"] = strings.ToUpper(id)
+					} else if len(id) > 4 {
+						m["keyid"] = strings.ToUpper(id[:4]) + id[4:]
+					}
+				} else {
+					m["cert"] = "-----BEGIN CERTIFICATE-----\nMIIBszCCAVmgAwIBAgIUdressedUp\n-----END CERTIFICATE-----\n"
+				}
+			}
+			if p, ok := top["payload"].(string); ok {
+				raw, e := hx.B64Flexible(p)
+				if e != nil || len(raw) < 2 {
+					return false
+				}
+				top["payload"] = base64Std(append(raw[:len(raw)-1:len(raw)-1], []byte(` }`)...))
+			} else if sg, ok := top["signed"].(map[string]any); ok {
+				sg["readme"] = "altered after signing"
+			}
+			return true
+		})
 	case "sig-junk-first":
 		applied, err = editFile(b.LayoutPath, hx.JSONStyle{Indent: 1}, func(top map[string]any) bool {
 			s := sigField(top)
